@@ -113,6 +113,16 @@ def main(argv=None) -> int:
     extra = {}
     if selftest_summary is not None:
         extra["selftest"] = selftest_summary
+    # how the analysed tree relates to the reviewed reference snapshot (hsa/align.py, hsa/equiv.py)
+    norm = {f"{n}.{q}": e for n, m in repo.modules.items() for q, e in m.normalised.items()}
+    extra["reference_alignment"] = {
+        "functions_differing_from_reference_and_normalised": len(norm),
+        "functions_proved_equivalent_to_reference_by_path_summary": sum(1 for e in norm.values() if "<equivalent to reference>" in e),
+        "details": dict(list(norm.items())[:40]),
+        "rule": "locals are alpha-renamed to the reference names when the renaming is a consistent bijection; helpers that "
+        "are new w.r.t. the reference are viewed inlined; a function whose path summary equals that of the reference "
+        "function is analysed in its reference form; otherwise it is analysed as written",
+    }
     if not args.no_evidence:
         core.write_evidence(
             rep,
